@@ -71,12 +71,12 @@ class _FuseReluClipBase(RewriteRuleClassBase, abc.ABC):
             min_input = node.inputs[1]
             # If only a max is provided, min is implicitly None, so we check that
             if min_input is not None:
-                min_clip = min_input.const_value.numpy()
+                min_clip = ir.convenience.get_const_tensor(min_input).numpy()
 
         if len(node.inputs) > 2:
             max_clip = node.inputs[2]
             if max_clip is not None:
-                max_clip = max_clip.const_value.numpy()
+                max_clip = ir.convenience.get_const_tensor(max_clip).numpy()
 
         return min_clip, max_clip, dtype
 
@@ -111,6 +111,16 @@ class _FuseReluClipBase(RewriteRuleClassBase, abc.ABC):
 
             if ir.convenience.get_const_tensor(m) is None:
                 return check_result.fail(f"{m.name} is not a constant.")
+
+        # The fused bounds are created with the element type of the Clip input
+        clip_nodes = [first_clip_node]
+        if out_second_clip:
+            clip_nodes.append(second_clip_node)
+        for clip_node in clip_nodes:
+            if clip_node.inputs[0].dtype is None:
+                return check_result.fail(
+                    f"The element type of {clip_node.inputs[0].name} is not known."
+                )
 
         return check_result
 
